@@ -190,7 +190,7 @@ impl Families {
             "F1" => self.f1.get(i as usize).map(|x| x.1.clone()),
             "UNI" => self.uni.get(i as usize).map(|x| x.1.clone()),
             "STR" => {
-                const A: [char; 10] = ['a', ' ', '\t', '\n', '\r', '\0', '"', '\\', ';', '~'];
+                const A: [char; 10] = ['a', ' ', '\t', '\n', '\r', '\0', '"', '\\', ';', 'é'];
                 let (len, mut k) = if i < 1 { (0, 0) } else if i < 11 { (1, i - 1) } else if i < 111 { (2, i - 11) } else if i < 1111 { (3, i - 111) } else { (4, i - 1111) };
                 let mut lit = String::new();
                 for _ in 0..len { lit.push(A[(k % 10) as usize]); k /= 10; }
